@@ -23,6 +23,18 @@ def run(ctx):
     ctx.mc("MC_Enum", "MC_Enum.cfg", timeout=900)
     tr = ctx.path("c19.ndjson")
     ctx.run_mvh(["enums", "-aux", "c19", "-out", tr, "-seed", ctx.seed, "-tier", ctx.tier])
+    # enum types of GENERATED dialects: grammar-made XML through the real generator, compiled into a probe binary
+    from checks import c18
+    ngen = 0
+    with open(tr, "a") as f:
+        for b0 in ([0, 20, 40, 60, 80] if ctx.thorough() else [0]):
+            grecs, _ = c18.run_batch(ctx, 500 + b0, 20 if ctx.thorough() else 10, probe_aux="enums")
+            for r in grecs:
+                r["type"] = "generated.%d.%s" % (500 + b0, r["type"])
+                f.write(json.dumps(r) + "\n")
+                ngen += 1
+    if ngen == 0:
+        raise vf.Inconclusive("no enum type of a generated dialect was probed")
     parts = vf.split_ndjson(tr, vf.NCPU, ctx.path("c19part"))
     res = ctx.validate("Trace_Dialect", [p for p, _ in parts], env={"DEFS": "-"})
     ntypes = nprobes = nbit = 0
@@ -58,7 +70,9 @@ def run(ctx):
     ctx.cov["evaluations"] = nprobes
     ctx.cov["enum_types"] = ntypes
     ctx.cov["bitmask_types"] = nbit
-    ctx.cov["rule"] = ("every defining enum type of the 19 shipped dialects (list generated from the sources at check time): every defined "
+    ctx.cov["enum_types_of_generated_dialects"] = ngen
+    ctx.cov["rule"] = ("every defining enum type of the 19 shipped dialects (list generated from the sources at check time) and every enum type of "
+                       "10 (quick) / 100 (thorough) dialects generated from grammar-made XML by the real generator: every defined "
                        "constant, for bitmasks 0 and seeded unions of defined flags (incl. all flags), for ordinary enums boundary and "
                        "seeded values over the full uint64 range, each text parsed into a fresh variable and into one holding another value, ~23 junk texts; distinct = (type, value) pairs")
     ctx.assumptions += ["an enum is treated as a bitmask iff its generated MarshalText joins names with ' | ' (the dialect XML is not shipped)",
